@@ -63,7 +63,10 @@ def run(ctx):
         out = ctx.path('h.sgz')
         try:
             if kind == 'numpy':
-                conv.numpy_to_sgz(arr, out, q, bs)
+                src_arr = gen.noncontiguous(arr, k // 12) if (k // 6) % 2 == 1 else arr
+                desc['memory_layout'] = 'non-contiguous' if src_arr is not arr else 'C'
+                ctx.stats['numpy_noncontiguous'] += int(src_arr is not arr)
+                conv.numpy_to_sgz(src_arr, out, q, bs)
                 want = sha(arr)
             else:
                 sgy = ctx.path('h.sgy')
